@@ -16,17 +16,7 @@ def liftC {α} : CRes α → SRes α
   | .ok a => .ok a
   | .error e => .error (.cerr e)
 
-def hasInterp (s : Str) : Bool :=
-  match s with
-  | [] => false
-  | 36 :: 123 :: _ => true
-  | _ :: r => hasInterp r
-
-/-- `str.replace('$$', '$')` -/
-def undouble : Str → Str
-  | 36 :: 36 :: r => 36 :: undouble r
-  | c :: r => c :: undouble r
-  | [] => []
+abbrev undouble := undoubleDollar
 
 def TAL : Str := lit "http://xml.zope.org/namespaces/tal"
 def METAL : Str := lit "http://xml.zope.org/namespaces/metal"
